@@ -25,6 +25,7 @@ from armulator.armv6.tlb_record import TLBRecord
 class ArmV6:
     def __init__(self, config_file=path.join(path.abspath(path.dirname(__file__)), 'arm_configurations.json')):
         configurations.load(config_file)
+        self.configs = configurations.configs
         self.registers = Registers()
         self.run = True
         self.opcode = 0
@@ -61,7 +62,12 @@ class ArmV6:
     def print_registers(self):
         print(self.format_registers())
 
+    def select_configurations(self):
+        # the configuration object is shared by the whole module, several processors may live side by side
+        configurations.configs = self.configs
+
     def take_reset(self):
+        self.select_configurations()
         self.registers.cpsr.m = 0b10011
         if have_security_ext():
             self.registers.scr.ns = 0
@@ -1809,6 +1815,7 @@ class ArmV6:
             self.registers.increment_pc(self.this_instr_length() // 8)
 
     def emulate_cycle(self):
+        self.select_configurations()
         try:
             instr = self.fetch_instruction()
             opcode_c = self.decode_instruction(instr)
